@@ -94,6 +94,8 @@ type vfC05Case struct {
 	// ClientExitAfter > 0 (mode both): the scripted client process exits with ClientExitCode after that many requests
 	ClientExitAfter int `json:"clientExitAfter"`
 	ClientExitCode  int `json:"clientExitCode"`
+	// SlowStop: every scripted server takes 1.2 s to stop after being asked to (no fault: the runner's grace period is 5 s)
+	SlowStop bool `json:"slowStop,omitempty"`
 }
 
 func vfC05Suites(c vfC05Case, dir string) ([]string, map[string][]byte, error) {
@@ -275,6 +277,9 @@ func vfC05Check(c vfC05Case) error {
 	}
 	sort.Strings(tupleList)
 	ss := vfServerScript{HTTPLog: c.Mode == "server"}
+	if c.SlowStop {
+		ss.StopDelayMs = 1200
+	}
 	faultTuple := ""
 	if c.ServerFault != "" && len(tupleList) > 0 && c.Mode != "client" {
 		faultTuple = tupleList[c.FaultTuple%len(tupleList)]
@@ -669,6 +674,12 @@ func TestVerifC05ClientKinds(t *testing.T) {
 	for _, k := range []int{1, 7} {
 		rows = append(rows, vfC05Case{Mode: "both", Config: "default", Corpus: true, MaxServers: 2, Order: "immediate", Procs: 4,
 			Generalise: []int{0, 0, 0, 0, 0}, ClientExitAfter: k, ClientExitCode: k % 2})
+	}
+	// the client dies while several slow-to-stop servers are up and more are waiting for a slot: when the run returns,
+	// every server it started has stopped
+	for _, k := range []int{1, 2, 3, 5} {
+		rows = append(rows, vfC05Case{Mode: "both", Config: "default", Corpus: true, MaxServers: uint(2 + k%2), Order: "immediate", Procs: 4,
+			Generalise: []int{0, 0, 0, 0, 0}, ClientExitAfter: k, ClientExitCode: 1, SlowStop: true})
 	}
 	for _, fault := range []string{"ignore-term", "exit-before-answer"} {
 		for _, mode := range []string{"both", "server"} {
